@@ -145,4 +145,10 @@ def main_wrapper(fn):
     except TLCError as exc:
         print(f"MACHINERY-FAILURE: {exc}", file=sys.stderr)
         sys.exit(2)
+    except Exception:
+        # a crash of the harness itself is never a verdict about the property (exit 1 is reserved for VIOLATION lines)
+        import traceback
+        traceback.print_exc()
+        print("MACHINERY-FAILURE: unhandled exception in the harness", file=sys.stderr)
+        sys.exit(2)
     sys.exit(rc)
